@@ -898,6 +898,22 @@ func execPipe(caseText string) (obs string) {
 		switch f[0] {
 		case "collect":
 			err = target.Consume(ctx, func(v pv) { delivered = append(delivered, v) })
+		case "ffl":
+			// value terminals built on Consume: what they hand back is "delivered" (nothing when they fail)
+			var o *shpanstream.Tuple2[pv, pv]
+			if o, err = stream.FindFirstAndLast(target).GetOptional(ctx); err == nil && o != nil {
+				delivered = []pv{o.A, o.B}
+			}
+		case "flast":
+			var o *pv
+			if o, err = target.FindLast().GetOptional(ctx); err == nil && o != nil {
+				delivered = []pv{*o}
+			}
+		case "count":
+			var n int
+			if n, err = target.Count(ctx); err == nil {
+				delivered = []pv{{I: int64(n)}}
+			}
 		case "user":
 			err = target.ConsumeWithErr(ctx, func(v pv) error {
 				if e := w.call(); e != nil {
